@@ -436,6 +436,11 @@ def param_metadata_rules(ctx, rule='R6'):
             masks[fold_in(init, n.right)] = True
     ctx.inst(rule, init, 'param-masks', set(masks) == {0x0F, 0x10, 0x40}, 'metadata masks %s, expected type 0x0F, extended 0x10, read-only 0x40' % sorted(masks))
     sts = {norm(s.targets[0]): s for s in sorted([x for x in walk_own(init.node) if isinstance(x, ast.Assign)], key=lambda x: x.lineno)}
+    # `self.ctype, self.pytype = self.types[k]` is the two indexed reads
+    for s_ in [x for x in walk_own(init.node) if isinstance(x, ast.Assign) and isinstance(x.targets[0], (ast.Tuple, ast.List)) and not isinstance(x.value, (ast.Tuple, ast.List))]:
+        for i_, t_ in enumerate(s_.targets[0].elts):
+            sts.setdefault(norm(t_), ast.copy_location(ast.Assign(targets=[t_], value=ast.Subscript(value=s_.value, slice=ast.Constant(value=i_), ctx=ast.Load())), s_))
+    ctx.need('self.ctype' in sts and 'self.pytype' in sts, 'ParamTocElement.__init__: stores of ctype / pytype not found')
     ctx.inst(rule, init, 'param-extended-bit', 'self.extended' in sts and (canon_test(sts['self.extended'].value) in (fact_key('metadata & 16 != 0')[0], 'not ' + fact_key('metadata & 16 == 0')[0], 'not 0 == metadata & 16') or norm(sts['self.extended'].value) == 'bool(metadata & 16)'),
              'extended marker = bit 4; found %s' % (norm(sts['self.extended'].value) if 'self.extended' in sts else None))
     g2 = cfg_of(init)
